@@ -782,6 +782,65 @@ void spinning_readers(std::uint64_t total)
   vf::count("log/spin/rounds-in-which-readers-saw-several-levels", rounds_with_transitions);
 }
 
+// ------------------------------------------------------------------ unnamed components
+// A location component (or a logger name) may be the empty string - the root of every context is such a node.  The text
+// of a message carries the names of ALL named ancestors from the root down to the logger, in that order; an unnamed node
+// contributes nothing and hides nothing.  Levels follow the full location (empty components included).
+void unnamed_components()
+{
+  std::string e = "log-unnamed-components";
+  if (!vf::entry_enabled(e) || !vf::mine(vf::hash_str(e)))
+    return;
+  vf::set_entry(e);
+  char const *const pool[4] = {"gfx", "", "cache", "x"};
+  std::uint64_t cases = 0;
+  for (unsigned code = 0; code < 4 * 4 * 4 * 4; ++code)
+  {
+    std::array<int, 4> ix{static_cast<int>(code & 3U), static_cast<int>((code >> 2U) & 3U), static_cast<int>((code >> 4U) & 3U), static_cast<int>((code >> 6U) & 3U)};
+    for (unsigned depth = 0; depth <= 3; ++depth)
+      for (unsigned how = 0; how < 2; ++how)
+      {
+        // the logger's name is ix[depth]; its location the components ix[0..depth)
+        if (!vf::begin_case("components %s/%s/%s name=%s depth=%u via %s", pool[ix[0]], pool[ix[1]], pool[ix[2]], pool[ix[depth]], depth, how ? "parent objects" : "location"))
+          continue;
+        vf::note_distinct(vf::hash_mix(vf::hash_str(e), (code * 4U + depth) * 2U + how));
+        ++cases;
+        sinks_t sinks;
+        l::context ctx{toopt(0), make_streams(sinks)};
+        std::string want;
+        for (unsigned k = 0; k <= depth; ++k)
+          if (pool[ix[k]][0] != 0)
+            want += std::string(pool[ix[k]]) + ": ";
+        want += std::string(l::level_to_string(l::level::info)) + ": msg\n";
+        std::unique_ptr<l::object> obj;
+        std::vector<std::unique_ptr<l::object>> chain;
+        if (how == 0)
+        {
+          l::location loc;
+          for (unsigned k = 0; k < depth; ++k)
+            loc /= l::name{pool[ix[k]]};
+          obj = std::make_unique<l::object>(fcppt::make_ref(ctx), loc, l::parameters{l::name{pool[ix[depth]]}, l::format::optional_function{}});
+        }
+        else
+        {
+          chain.push_back(std::make_unique<l::object>(fcppt::make_ref(ctx), l::parameters{l::name{pool[ix[0]]}, l::format::optional_function{}}));
+          for (unsigned k = 1; k <= depth; ++k)
+            chain.push_back(std::make_unique<l::object>(*chain.back(), l::parameters{l::name{pool[ix[k]]}, l::format::optional_function{}}));
+          obj = std::move(chain.back());
+          chain.pop_back();
+        }
+        obj->log(l::level::info, l::out << "msg");
+        std::string const got = sinks.s[static_cast<std::size_t>(l::level::info)].str();
+        VF_COUNT("log/unnamed/messages");
+        if (want.find(": ") != want.rfind(": ") && std::string(pool[ix[0]]).empty() == false)
+          VF_COUNT("log/unnamed/named-ancestor-above-an-unnamed-node-possible");
+        if (got != want)
+          vf::violation("log/text/unnamed-component", "mismatch", "got [" + got + "] want [" + want + "] case: " + vf::current_case());
+      }
+  }
+  vf::add_evals(cases);
+}
+
 void body()
 {
   for (char const *b : {"log/seq/set", "log/seq/set-empty-level", "log/seq/get", "log/seq/create-by-location", "log/seq/create-by-context",
@@ -793,6 +852,7 @@ void body()
   sequential(vf::tier<std::uint64_t>(20000, 1000000));
   concurrent(vf::tier<std::uint64_t>(12000, 400000));
   spinning_readers(vf::tier<std::uint64_t>(1600, 60000));
+  unnamed_components();
 }
 }
 
